@@ -13,8 +13,9 @@ PROPERTY = 'C12'
 LEVEL = 'exploration'
 EXHAUSTIVE = {'quick': True, 'thorough': True}
 RULE = ('exhaustive catalogue: allow mode {all, none, local, remote, sandbox} x main source kind {path, file URL, text + '
-        'base_url, open file, remote URL through a stub opener} x mechanism {include, redefine, override (1.1), import, '
-        'locations= argument, uri_mapper mapping, uri_mapper callable, xsi:schemaLocation hint in an instance} x target '
+        'base_url, open file, remote URL through a stub opener, text + remote base_url} x mechanism {include, redefine, override (1.1), import, '
+        'locations= argument, uri_mapper mapping, uri_mapper callable, xsi:schemaLocation hint on a nested element, namespace loaded on '
+        'demand from the locations argument, package-level function with hints on the document root} x target '
         'class {inside the sandbox, sub-directory, sibling directory sharing the sandbox name as prefix, other sibling, above '
         'the base, remote http / https / ftp} x spelling {relative, ./x, sub/../x, chains of .., absolute path, file:///, '
         'file://localhost/, percent-encoded dots and separators, upper-case scheme, backslashes}; observed through interpreter '
